@@ -1,10 +1,13 @@
 //! E1 `seqx`: sequential bounded-exhaustive enumeration of amiquip's components, driven
 //! directly on this thread through the public API or `cfg(amiquip_verif)` probes.
+mod api;
 mod framebuf;
+mod publish;
 mod slots;
 mod smoother;
 mod tune;
 mod url;
+mod writeprobe;
 
 use serde_json::Value;
 
@@ -58,6 +61,9 @@ fn main() {
         "smoother" => smoother::run(&args),
         "slots" => slots::run(&args),
         "tune" => tune::run(&args),
+        "api" => api::run(&args),
+        "publish" => publish::run(&args),
+        "writeprobe" => writeprobe::run(&args),
         "framebuf" => framebuf::run(&args),
         "url" => url::run(&args),
         "slots-boundary-child" => slots::boundary_child(&args.rest[0]),
@@ -70,6 +76,9 @@ fn main() {
                 "smoother" => smoother::replay(&v),
                 "slots" => slots::replay(&v),
                 "tune" => tune::replay(&v),
+                "api" => api::replay(&v),
+                "publish" => publish::replay(&v),
+                "writeprobe" => writeprobe::replay(&v),
                 "framebuf" => framebuf::replay(&v),
                 "url" => url::replay(&v),
                 other => {
